@@ -124,10 +124,14 @@ class _Metadata:
             else:
                 mergedVal = selfVal
             mergedData[key] = mergedVal
+        self._updateContainersAfterMerge(other, selfContainer, otherContainer)
         return mergedData
 
     def _getSkippedKeys(self, other, selfContainer, otherContainer, mergedData):
         return set()
+
+    def _updateContainersAfterMerge(self, other, selfContainer, otherContainer):
+        """Hook for changes to the containers; only called once the merge has been accepted."""
 
     def _mergeLibrarySpecificData(
         self, other, selfContainer, otherContainer, mergedData
@@ -213,10 +217,15 @@ class NuclideXSMetadata(FileMetadata):
             mergedData["fileWideChiFlag"] = 0
             skippedKeys.add("fileWideChiFlag")
             mergedData["chi"] = None
-            for nuc in [nn for nn in selfContainer.nuclides + otherContainer.nuclides]:
-                if nuc.isotxsMetadata["fisFlag"] > 0:
-                    nuc.isotxsMetadata["chiFlag"] = 1
         return skippedKeys
+
+    def _updateContainersAfterMerge(self, other, selfContainer, otherContainer):
+        if self["chi"] is not None or other["chi"] is not None:
+            # the file-wide chi is gone: fissile nuclides now carry their own chi
+            # (nuclides without ISOTXS data, e.g. from a GAMISO, have no fisFlag)
+            for nuc in selfContainer.nuclides + otherContainer.nuclides:
+                if (nuc.isotxsMetadata["fisFlag"] or 0) > 0:
+                    nuc.isotxsMetadata["chiFlag"] = 1
 
     def _mergeLibrarySpecificData(
         self, other, selfContainer, otherContainer, mergedData
